@@ -229,7 +229,7 @@ theorem dbgBody_progress (f : List Nat) (pos op p op' : Nat)
       · cases h
       · injection h with h _; omega
 
-theorem hiddenBody_progress (f : List Nat) (offset ss pos p : Nat) (st st' : Nat × Nat)
+theorem hiddenBody_progress (f : List Nat) (offset ss pos p : Nat) (st st' : Int × Nat)
     (h : hiddenBody f offset ss pos st = .next p st') : pos + 4 ≤ p := by
   unfold hiddenBody at h
   repeat' split at h
